@@ -141,11 +141,14 @@ RunLetters(ss, dd, t, ls, synced, acc) ==
 \* servers are re-initialised; the step itself (boot-up frame etc.) belongs to C09 / C20
 ResetStep == StepRec(<<"rx", 0, 2, 130, NodeId, 0, 0, 0, 0, 0, 0>>, << <<"resume">> >>)
 ProbeFrom(ss, dd, t, sy) ==
-  LET clean == IF ProbeKind = "full" THEN CleanSeq(t) ELSE SubSeq(CleanSeq(t), 1, 6)
+  LET dv == IF ss.o # 0 /\ ss.mode \in {"dseg", "bdl", "bdw"} THEN [dd EXCEPT ![ss.o] = Unknown(@)] ELSE dd     \* the target of an open download is in flux
+      clean == IF ProbeKind = "full" THEN CleanSeq(t) ELSE SubSeq(CleanSeq(t), 1, 6)
       a == IF ProbeReset
            THEN LET b == RunLetters(Idle, DropTransfer(ss, dd), t, clean, TRUE, <<>>) IN [b EXCEPT !.steps = <<ResetStep>> \o @]
            ELSE RunLetters(ss, dd, t, << <<"useg", 0>>, <<"abort">> >> \o clean, sy, <<>>)
-  IN a.steps \o <<DumpStep(a.d, 4)>> \o (IF ProbeKind = "full" THEN <<DumpStep(a.d, 1), DumpStep(a.d, 5)>> ELSE <<>>)
+  \* the content the edge left behind is dumped first (an open download may still change its target
+  \* afterwards, a confirmed one may not), then the continuation, then the content again
+  IN <<DumpStep(dv, 1), DumpStep(dv, 4), DumpStep(dv, 5), DumpStep(dv, 9)>> \o a.steps \o <<DumpStep(a.d, 4)>> \o (IF ProbeKind = "full" THEN <<DumpStep(a.d, 1), DumpStep(a.d, 5)>> ELSE <<>>)
 Probe == ProbeFrom(s, d, tid, sync)
 \* pumping: a letter that leaves the control state unchanged is repeated PumpN times, then the probe
 PumpRec == LET ls == [i \in 1..PumpN |-> lastl]
